@@ -267,6 +267,6 @@ def run(tier, seed):
 MANIFEST = {
     "engine": "H",
     "technique": "explicit-state BFS to closure over allocate/complete/abort/disconnect histories on a real StorageServer whose free-space query is rebound to a simulated disk",
-    "text": "From every (capacity, reserved_space, readonly) root all histories of allocations of 3/5-byte shares on 2 storage indexes x 2 share numbers, completions, aborts and disconnects are explored until no new canonical state appears; at every allocation the sizes granted are compared with available space minus the reference's in-progress reservations, and allocated_size() with the reference after every step.",
+    "text": "From every (capacity, reserved_space, readonly) root all histories of allocations of 3/5-byte shares on 2 storage indexes x 2 share numbers, completions, aborts and disconnects are explored until no new canonical state appears; at every allocation the sizes granted are compared with available space minus the reference's in-progress reservations, and allocated_size() with the reference after every step. The simulated disk answers os.statvfs (with root-only free blocks), so fileutil's reserved-space arithmetic is code under test.",
     "note": "Simulated disk charges completed payload only (container overhead is neither charged nor reserved). Whether a fitting request is granted is not demanded (counted). Mutable slots and leases as space consumers are outside. Every transition is an implementation run.",
 }
